@@ -7,6 +7,7 @@ import (
 	"fmt"
 	"mime"
 	"net/http"
+	"net/url"
 	"path"
 	"strconv"
 	"strings"
@@ -65,7 +66,9 @@ func (h *Handler) ServeHTTP(w http.ResponseWriter, r *http.Request) {
 			return
 		}
 
-		http.Redirect(w, r, principalPath, http.StatusPermanentRedirect)
+		// the principal path is not URL-encoded
+		principalURL := url.URL{Path: principalPath}
+		http.Redirect(w, r, principalURL.String(), http.StatusPermanentRedirect)
 		return
 	}
 
